@@ -18,6 +18,7 @@ type kaStep struct {
 	Gap    int    `json:"gap"`
 	Kind   string `json:"kind"`
 	Expect string `json:"expect"`
+	Fed    bool   `json:"fed"`
 }
 
 // runKeepAlive executes one client schedule against a fresh broker with KeepAlive = k seconds.
@@ -46,6 +47,31 @@ func runKeepAlive(steps []kaStep, k, req int, unit time.Duration) string {
 	m, err := r.rawConnect("c", a)
 	if err != nil {
 		return "INFRA connect: " + err.Error()
+	}
+	// a fed client is subscribed to a topic the witness connection publishes on every 0.3 K, for as long as the schedule runs
+	fed := len(steps) > 0 && steps[0].Fed
+	stopFeed := make(chan struct{})
+	defer close(stopFeed)
+	if fed {
+		m.c.Write(pkt(0x82, append([]byte{0, 7}, append(lp([]byte("ka/feed")), 0)...)))
+		if p, err := readPkt(m.c, r.tmo); err != nil || p.first != 0x90 {
+			return fmt.Sprintf("INFRA subscribe of the fed client: %v", err)
+		}
+		go func() {
+			tick := time.NewTicker(3 * unit)
+			defer tick.Stop()
+			for {
+				select {
+				case <-stopFeed:
+					return
+				case <-tick.C:
+					wit.c.SetWriteDeadline(time.Now().Add(time.Second))
+					if _, err := wit.c.Write(pkt(0x30, append(lp([]byte("ka/feed")), 'f'))); err != nil {
+						return
+					}
+				}
+			}
+		}()
 	}
 	// reader: records PINGRESPs and the moment the broker closes the connection
 	var mu sync.Mutex
